@@ -49,7 +49,8 @@ def verdict (toks : List String) (out0 : String) : String :=
           else if m = "horspool" then texts.map (Horspool.findAll p) == exp
           else if m = "kmp" then texts.map (Kmp.findAll p) == exp
           else if m = "bndm" then texts.map (Bndm.findAll p) == exp.map some
-          else if m = "bom" then texts.map (Bom.findAll p) == exp else true
+          else if m = "bom" then texts.map (Bom.findAll p) == exp && texts.map (Bom.findAllS p) == exp.map some
+          else true
         if !mirrorOk then "bad-op mirror-model-disagrees-with-oracle" else
         if exp = outs then
           let nt := p.length ≥ 2 && exp.any (fun l => !l.isEmpty)
